@@ -47,6 +47,41 @@ template <class T> bool run_lattice (bool thorough)
     return ok;
 }
 
+// ---- elongated boxes ------------------------------------------------------------------------------------------
+// Box coordinates from {0,1,12} (every (min,max) per axis: cubes, slabs 12x1x1, plates, flat and inverted), origins
+// {-1,1,6,11,13}^3, the same unnormalised directions: a ray can hit such a box while travelling AWAY from its centre
+// (or from its bounding sphere's centre), which a near-cubic lattice box never shows.
+template <class T> bool run_elongated (bool)
+{
+    static const long long C[3] = {0, 1, 12}, O[5] = {-1, 1, 6, 11, 13};
+    const int DR = 3;
+    const uint64_t NB = 729, NO = 125, ND = ex::ipow (2 * DR + 1, 3);
+    Tally total; std::mutex mu;
+    bool ok = vf::parallel_chunks (NB, 2, [&] (uint64_t lo, uint64_t hi, unsigned) {
+        Tally tl;
+        for (uint64_t bi = lo; bi < hi; ++bi)
+        {
+            long long mn[3], mx[3]; uint64_t x = bi;
+            for (int i = 0; i < 3; ++i) { int dgt = (int) (x % 9); x /= 9; mn[i] = C[dgt % 3]; mx[i] = C[dgt / 3]; }
+            for (uint64_t oi = 0; oi < NO; ++oi)
+            {
+                int oc[3]; ex::decode (oi, 5, 3, oc, 0);
+                long long p[3] = {O[oc[0]], O[oc[1]], O[oc[2]]};
+                for (uint64_t di = 0; di < ND; ++di)
+                {
+                    int dc[3]; ex::decode (di, 2 * DR + 1, 3, dc, -DR);
+                    if (!dc[0] && !dc[1] && !dc[2]) continue;
+                    long long d[3] = {dc[0], dc[1], dc[2]};
+                    one_case<T, long long> (mn, mx, p, d, tl);
+                }
+            }
+        }
+        std::lock_guard<std::mutex> g (mu); total += tl;
+    });
+    publish (total, "elongated.");
+    return ok;
+}
+
 // ---- rounding at the box boundary ---------------------------------------------------------------------------
 // The clamps in the implementation matter only when fl(p + fl(D/d)*e) falls outside [min,max] although the exact
 // value is ON the boundary. Small integers for which that happens (found by search, stated here as the alphabet):
